@@ -111,6 +111,36 @@ func init() {
 	fragments["deposit1"] = func(g *Gen) []func() [][]byte { return g.depositSteps(1, 100, 0, 8) }
 	fragments["deposit2"] = func(g *Gen) []func() [][]byte { return g.depositSteps(2, 250, 3, 1) }
 	fragments["deposit3"] = func(g *Gen) []func() [][]byte { return g.depositSteps(3, 7, 7, 1) }
+	// depositExpiry: an untipped deposit round gets one report, the chain is fast-forwarded to the block in which the
+	// round's window ends, and further reports arrive exactly at, and one block after, that height
+	fragments["depositExpiry"] = func(g *Gen) []func() [][]byte {
+		const id = 4
+		qd := BridgeQuery(true, id)
+		val := DepositValue([]byte{id, 7, 7}, g.c.W.Users[0].Bech(), new(big.Int).Mul(big.NewInt(3), big.NewInt(1e18)), big.NewInt(0))
+		rep := func(idx ...int) func() [][]byte {
+			return func() [][]byte {
+				var out [][]byte
+				for _, i := range idx {
+					if i < g.c.W.Cfg.NumVals && !g.tb.Used(g.c.W.Vals[i].Op) {
+						k := g.c.W.Vals[i].Op
+						out = append(out, g.tx(k, &oracletypes.MsgSubmitValue{Creator: k.Bech(), QueryData: qd, Value: val}))
+					}
+				}
+				return out
+			}
+		}
+		wait := func() [][]byte { return nil }
+		jump := func() [][]byte {
+			// the block being planned is Height+1; the next planned block shall be the round's expiration height
+			if q, err := g.c.App.OracleKeeper.CurrentQuery(g.c.CommittedCtx(), QueryID(qd)); err == nil {
+				if n := int(q.Expiration) - int(g.c.Height) - 2; n > 0 && n < 3000 {
+					g.FastForward = n
+				}
+			}
+			return nil
+		}
+		return []func() [][]byte{wait, wait, wait, wait, wait, wait, rep(0), jump, rep(1, 2), rep(3, 0), wait}
+	}
 	fragments["mintInit"] = func(g *Gen) []func() [][]byte {
 		// give the chain a few blocks first
 		wait := func() [][]byte { return nil }
